@@ -22,6 +22,11 @@ struct Judge<'a> {
     stream_all: bool,
     stream_sample_den: u64,
     counter: u64,
+    /// The line of a related valid frame that the receiver decoded just before each damaged line
+    /// (a decoder is free to keep state between calls; the property holds whatever came before).
+    history: Option<Vec<u8>>,
+    /// A valid frame already queued behind the damaged line on the same stream.
+    follower: Option<Vec<u8>>,
 }
 
 impl Judge<'_> {
@@ -31,6 +36,9 @@ impl Judge<'_> {
         }
         self.counter += 1;
         // (a) decode the damaged line directly
+        if let Some(h) = &self.history {
+            let _ = Frame::from_bytes(h);
+        }
         let r = Frame::from_bytes(damaged);
         self.classify(kind, &r);
         if let Ok(f) = &r {
@@ -76,6 +84,27 @@ impl Judge<'_> {
                 }
                 if damaged.contains(&b'\n') && damaged.iter().position(|b| *b == b'\n').unwrap() + 1 < damaged.len() {
                     self.cx.probe("lf_inserted_mid_line");
+                }
+            }
+            // (c) the same read with another valid frame already waiting behind the damaged line: the
+            // damaged frame is still to be rejected or recovered, not skipped in favour of the next one
+            if let (Some(fo), false) = (&self.follower, damaged.is_empty()) {
+                let mut both = damaged.to_vec();
+                both.extend_from_slice(fo);
+                let mut s = SimStream::new(self.cx, both);
+                if let Some(h) = &self.history {
+                    let _ = Frame::from_bytes(h);
+                }
+                let r3 = Frame::read(&mut s);
+                self.cx.probe("damaged_line_read_with_a_frame_queued_behind_it");
+                if let Ok(f) = &r3 {
+                    if f != self.original {
+                        self.cx.fail(
+                            format!("C02/{kind}-read-as-different-frame"),
+                            format!("{kind} at {pos}: stream {:?} followed by a valid frame was read as a DIFFERENT frame (addr {:#06x} type {}): the damaged frame was neither rejected nor recovered", String::from_utf8_lossy(damaged), f.address().0, f.message_type().0),
+                        );
+                        return;
+                    }
                 }
             }
         }
@@ -236,7 +265,27 @@ impl Scenario for C02 {
     fn run(&self, cx: &Cx) -> Result<(), Violation> {
         // Mostly short frames (cheap, complete stream path); some of maximal length.
         let mut both_forms = false;
-        let f = if cx.chance(1, 6) {
+        let mut history: Option<Vec<u8>> = None;
+        let f = if cx.chance(1, 10) {
+            // F = a frame G that the receiver decoded just before, extended by one data byte equal to G's
+            // checksum: one substituted length digit makes F's line "G's line and two more characters"
+            cx.probe("frame_extending_the_frame_decoded_just_before");
+            let mut g = gen_frame(cx);
+            let mut guard = 0;
+            while g.data().len() > 24 && guard < 8 {
+                g = gen_frame(cx);
+                guard += 1;
+            }
+            let gl = g.to_bytes();
+            let cks = std::str::from_utf8(&gl[gl.len() - 2..]).ok().and_then(|t| u8::from_str_radix(t, 16).ok()).unwrap_or(0);
+            let mut d = g.data().to_vec();
+            if d.len() < 255 {
+                d.push(cks);
+            }
+            history = Some(g.to_bytes_with_newline());
+            both_forms = true;
+            flipdot_core::Frame::new(g.address(), g.message_type(), crate::gens::data(d))
+        } else if cx.chance(1, 6) {
             cx.probe("frame_embedding_another_frame");
             nested_frame(cx)
         } else if cx.chance(1, 8) {
@@ -271,6 +320,28 @@ impl Scenario for C02 {
             }
             f
         };
+        if history.is_none() && f.data().len() <= 40 && cx.chance(1, 4) {
+            // the receiver decoded a related valid frame just before every damaged line: the frame itself,
+            // the frame without its last data byte, or with one more
+            cx.probe("related_frame_decoded_before_every_damaged_line");
+            let mut d = f.data().to_vec();
+            match cx.draw(3) {
+                0 => {}
+                1 => {
+                    d.pop();
+                }
+                _ => d.push(cx.draw(256) as u8),
+            }
+            let g = flipdot_core::Frame::new(f.address(), f.message_type(), crate::gens::data(d));
+            history = Some(if cx.chance(1, 2) { g.to_bytes_with_newline() } else { g.to_bytes() });
+        }
+        // a valid frame queued behind the damaged line (short frames only: the stream path is complete there)
+        let follower: Option<Vec<u8>> = if f.data().len() <= 24 && cx.chance(1, 3) {
+            let g = gen_frame(cx);
+            if g != f && g.data().len() <= 24 { Some(g.to_bytes_with_newline()) } else { None }
+        } else {
+            None
+        };
         // the terminator is optional: three lines in four carry it (half of the crafted short ones)
         let with_newline = if f.data().len() <= 40 && cx.chance(1, 3) { cx.chance(1, 2) } else { cx.chance(3, 4) };
         // the short crafted frames are judged in both forms, one after the other
@@ -294,7 +365,7 @@ impl Scenario for C02 {
         cx.set_nontrivial();
         let n = line.len();
         let long = n > 80;
-        let mut j = Judge { cx, original: &f, line: &line, stream_all: !long, stream_sample_den: if long { 16 } else { 0 }, counter: 0 };
+        let mut j = Judge { cx, original: &f, line: &line, stream_all: !long, stream_sample_den: if long { 16 } else { 0 }, counter: 0, history: history.clone(), follower: follower.clone() };
         let mut buf: Vec<u8> = Vec::with_capacity(n + 1);
         // substitutions
         for p in 0..n {
